@@ -737,15 +737,15 @@ fn eval_err(req: &str) -> ImplOut {
                 }
             }
             // parser + printers
-            let node = parser_for(lang).parse(&format!("N({s})"), &ctx_cell());
+            let nname = Function::N.to_localized_name(lang);
+            let node = parser_for(lang).parse(&format!("{nname}({s})"), &ctx_cell());
             let ok_node = matches!(&node, Node::FunctionKind { args, .. } if args.len() == 1 && args[0] == Node::ErrorKind(err.clone()));
             if !ok_node {
-                out = out.fail("c23:err:parse", &format!("[{lid}] N({s}) does not parse to N(<{err:?}>): {node:?}"));
+                out = out.fail("c23:err:parse", &format!("[{lid}] {nname}({s}) does not parse to N(<{err:?}>): {node:?}"));
             } else {
                 let back = to_localized_string(&node, &ctx_cell(), en_locale(), lang);
-                let nname = Function::N.to_localized_name(lang);
                 if back != format!("{nname}({s})") {
-                    out = out.fail("c23:err:print", &format!("[{lid}] N({s}) prints back as {back}"));
+                    out = out.fail("c23:err:print", &format!("[{lid}] {nname}({s}) prints back as {back}"));
                 }
                 let exported = to_excel_string(&node, &ctx_cell());
                 let en = w.lang(w.en());
